@@ -44,18 +44,18 @@ CHECKS.update({
 })
 CHECKS.update({
  "C02": dict(
-    text="Proof (Coq): for EVERY kernel, after one pass each category is exactly the fold of the module's own update rule over exactly the rows labelled with it, in order (axiom-free), and one-update facts lift to all weights of all reachable states. At exact real arithmetic (stdlib real axioms): Fuzzy weights never increase, beta=1 fold = meet = a lower bound of all members attained in every coordinate (the bounding box), enclosure permanent, |w| >= rho d after every step in every mode that never lowers the vigilance; ART1 template decreasing / enclosure / bottom-up form / rho-cover; Hypersphere: each new sphere contains the old one (Cauchy-Schwarz + triangle inequality proved on lists), radius monotone and <= r_hat(1-rho); Ellipsoid radius monotone and <= r_hat(1-rho)/2; running mean = arithmetic mean. Tied to /repo by exact histories (Fuzzy/ART2-A) and direct kernel calls (all 8 modules, C03); all clauses are evaluated on the implementation after every presented sample for all 8 modules, bare and as SimpleARTMAP A-side.",
+    text="Proof (Coq): for EVERY kernel, after one pass each category is exactly the fold of the module's own update rule over exactly the rows labelled with it, in order (axiom-free), and one-update facts lift to all weights of all reachable states. At exact real arithmetic (stdlib real axioms): Fuzzy weights never increase, beta=1 fold = meet = a lower bound of all members attained in every coordinate (the bounding box), enclosure permanent, |w| >= rho d after every step in every mode that never lowers the vigilance; ART1 template decreasing / enclosure / bottom-up form / rho-cover; Hypersphere: each new sphere contains the old one (Cauchy-Schwarz + triangle inequality proved on lists), radius monotone and <= r_hat(1-rho); Ellipsoid radius monotone and <= r_hat(1-rho)/2; running mean = arithmetic mean. Tied to /repo by exact histories (Fuzzy/ART2-A) and direct kernel calls (all 8 modules, C03); all clauses are evaluated on the implementation after every presented sample for all 8 modules, bare and as SimpleARTMAP A-side. The vigilance bounds are lifted to every state reached by fit under every mode that never lowers the vigilance: Fuzzy |w| >= rho d on complement-coded rows, Hypersphere radii within [0, r_hat (1 - rho)].",
     note="Trusted: Coq kernel; ClassicalDedekindReals.sig_forall_dec, sig_not_dec, functional_extensionality_dep (stdlib reals); exact-real semantics (partial w.r.t. binary64 rounding); size bounds are for the vigilance in force (MT- lowers it by design); Gaussian/Bayesian sigma/cov recurrences and Bayesian det bound are checked on the implementation only.",
     technique="Coq proof (generic fold theorem by induction; real-analysis lemmas on lists) + correspondence + implementation-side clause oracle",
     ref="DESIGN.md section 7 C02"),
  "C03": dict(
-    text="The Gallina kernels are the published equations; their tie to the code is a direct-call correspondence of category_choice / match_criterion / update / new_weight for all eight modules at a 2^-80 fixed-point instance (2^-30 relative tolerance), and of get_bounding_box / shrink_clusters at exact rationals. Proved (Coq, at exact reals): operator table of the binary match test for all modes incl. the inverted Bayesian test, bounding box for any n <= d, shrink keeps the centre and stays inside the box, ART2-A suppression, ART1 update form, Fuzzy fast learning = fuzzy AND. Purity and match_criterion_bin = op(M, rho) are checked on the implementation for every call.",
+    text="The Gallina kernels are the published equations; their tie to the code is a direct-call correspondence of category_choice / match_criterion / update / new_weight for all eight modules at a 2^-80 fixed-point instance (2^-30 relative tolerance), and of get_bounding_box / shrink_clusters at exact rationals. Proved (Coq, at exact reals): operator table of the binary match test for all modes incl. the inverted Bayesian test, bounding box for any n <= d, shrink keeps the centre and stays inside the box, ART2-A suppression, ART1 update form, Fuzzy fast learning = fuzzy AND. Purity and match_criterion_bin = op(M, rho) are checked on the implementation for every call. Transfer: Q2R is proved to be a homomorphism from the executed exact-rational instance to the real-number instance, so the Fuzzy ART choice / match / update functions and the fold of the update over a category's members that the correspondence executes are, on rational inputs, the real-number functions the theorems are about.",
     note="Trusted: as C02; np.linalg.det/inv modelled by cofactor expansion; exp by Taylor series in fixed point (correspondence only).",
-    technique="Coq proof of derived facts + translation-validation-style direct-call correspondence",
+    technique="Coq proof of derived facts and of the Q->R transfer of the executed instance + translation-validation-style direct-call correspondence",
     ref="DESIGN.md section 7 C03"),
  "C04": dict(
-    text="Proof (Coq, axiom-free for the generic part): kernels are written in an error monad (zero divisor / missing value / out-of-range index = None) and a training step is defined whenever the kernel functions are defined on the stored weights - every index the search produces is in range and every visited match value exists; instances: Fuzzy ART with alpha > 0, ART2-A, Hypersphere with r_hat > 0 and r_hat - R + alpha > 0. Defined-ness of every kernel output is compared with the implementation (direct calls); fit / partial_fit / predict of all 8 modules and of compound estimators are run on legal extremes and any exception or non-finite value is reported.",
-    note="PARTIAL: overflow, underflow and cancellation are binary64 phenomena outside the exact model; Gaussian/Bayesian/Ellipsoid/QuadraticNeuron totality is covered by the correspondence and the implementation-side search, not by a theorem.",
+    text="Proof (Coq, axiom-free for the generic part): kernels are written in an error monad (zero divisor / missing value / out-of-range index = None) and a training step is defined whenever the kernel functions are defined on the stored weights - every index the search produces is in range and every visited match value exists; instances: Fuzzy ART with alpha > 0, ART2-A, Hypersphere with r_hat > 0 and r_hat - R + alpha > 0. Defined-ness of every kernel output is compared with the implementation (direct calls); fit / partial_fit / predict of all 8 modules and of compound estimators are run on legal extremes and any exception or non-finite value is reported. Lifted to whole calls (unbounded, every state / mode / epsilon / reset function): fit and partial_fit are defined on every valid data set for Fuzzy ART (alpha > 0, width >= 2), ART2-A, ART1 (L > 1, non-zero rows), and - under every mode that never lowers the vigilance, with alpha > 0 or rho > 0 - Hypersphere and Ellipsoid ART, via the proved invariant that stored radii stay within r_hat (1 - rho) resp. r_hat (1 - rho) / 2 - and for Gaussian ART (alpha >= 0, sigma_init > 0) via the proved layout invariant (positive standard deviations, count >= 1); predict is defined once a category exists (Fuzzy).",
+    note="PARTIAL: overflow, underflow and cancellation are binary64 phenomena outside the exact model; Bayesian/QuadraticNeuron totality, and Hypersphere/Ellipsoid under MT- with a reset function, are covered by the correspondence and the implementation-side search, not by a theorem.",
     technique="Coq proof (totality of the search step) + correspondence + fault search on legal extremes",
     ref="DESIGN.md section 7 C04"),
 })
